@@ -159,12 +159,7 @@ def binding(ctx):
               'J_hash absorbs %s with %s, the scheme requires S, U under SHA3-384' % (gotj, jh[0].algo if jh else '?'),
               str(gotj), jb.where())
     # the tag and the key are disjoint parts of J's output covering it
-    idx = [c for c in jb.calls(r'^std::ops::Index::index$')]
-    rngs = []
-    for c in idx:
-        ra = lib.range_arg(jb, c.args[1])
-        if ra:
-            rngs.append((ra[0], tuple(v[1] for v in ra[2])))
+    rngs = [(k, n) for (k, n, _c) in lib.const_splits(jb)]
     taglen = (F.consts.get('core::TAG_LENGTH') or {}).get('v', 16)
     ctx.check(sorted(rngs) == sorted([('RangeTo', (taglen,)), ('RangeFrom', (taglen,))]), jb.key, 'tag = J[..TAG], key = J[TAG..]',
               'J_hash splits its output at %s; tag and key must be the disjoint parts [..%d] and [%d..]' % (rngs, taglen, taglen),
